@@ -30,6 +30,8 @@ pub struct Profile {
     pub excl_tz: bool,
     /// records whose fields are all zero-sized crash the compiler when read (known finding C02-F3)
     pub excl_zst_records: bool,
+    /// replace out_*() statements (unit-returning host calls) by effect markers
+    pub no_out_stmts: bool,
     /// maximum expression depth
     pub max_depth: u32,
     /// node budget for the whole program
@@ -55,6 +57,7 @@ impl Profile {
             excl_nonascii_fstring: false,
             excl_tz: false,
             excl_zst_records: false,
+            no_out_stmts: false,
             max_depth: 5,
             budget: 260,
             effect_weight: 0,
@@ -1283,6 +1286,14 @@ impl<'c> Gen<'c> {
     fn out_stmt(&mut self, d: u32) -> Option<Stmt> {
         if self.in_const {
             return None;
+        }
+        if self.prof.no_out_stmts {
+            let t = self.tag();
+            if self.c.chance(128) {
+                return Some(Stmt::Expr(Expr::Host("e".into(), vec![t])));
+            }
+            let b = self.expr(&Ty::Bool, d, Fix::Direct);
+            return Some(Stmt::Expr(Expr::Host("eb".into(), vec![t, b])));
         }
         let t = if self.prof.strings && self.c.chance(40) {
             Ty::Str
